@@ -113,6 +113,10 @@ func features() []feature {
 		{Name: "helper-kwonly-mandatory", Pre: "def hk(a, *, b, c=1):\n    return a + b + c\n", Body: "    x_hk = hk(1, b=2)\n", Edits: []edit{{"change keyword-only default", "b, c=1", "b, c=2"}}},
 		{Name: "helper-kwonly-after-varargs", Pre: "def hv(*rest, k):\n    return len(rest) + k\n", Body: "    x_hv = hv(1, 2, k=3)\n", Edits: []edit{{"change body of helper with mandatory keyword-only parameter", "len(rest) + k", "len(rest) - k"}}},
 		{Name: "helper-kwonly-optional", Pre: "def ho(a, *, c=1):\n    return a + c\n", Body: "    x_ho = ho(1)\n", Edits: []edit{{"change optional keyword-only default", "*, c=1", "*, c=2"}}},
+		// keys and elements that are not plain data: they are decoded into dicts/tuples, which cannot be keys
+		{Name: "dict-keyed-by-function", Pre: "def kf(x):\n    return x + 1\nDKF = {kf: \"objects\"}\n", Body: "    x_dkf = DKF\n", Edits: []edit{{"change value under a function key", "\"objects\"", "\"binary\""}, {"change the function that is the key", "return x + 1", "return x + 2"}}},
+		{Name: "dict-keyed-by-builtin", Pre: "DKB = {len: 1, str: 2}\n", Body: "    x_dkb = DKB\n", Edits: []edit{{"change value under a builtin key", "len: 1", "len: 3"}}},
+		{Name: "set-of-functions", Pre: "def sf1(x):\n    return x\ndef sf2(x):\n    return -x\nSOF = set([sf1, sf2])\n", Body: "    x_sof = SOF\n", Edits: []edit{{"change a function that is a set element", "return -x", "return x * 2"}}},
 		{Name: "struct-attr-chain", Pre: "def mk2():\n    return {\"f\": lambda v: v + 1}\nST = mk2()\n", Body: "    x_st = ST[\"f\"](1)\n", Edits: []edit{{"change lambda stored in a dict", "v + 1", "v + 2"}}},
 	}
 }
@@ -525,7 +529,13 @@ func main() {
 				sort.Strings(w)
 				r.Add("reasons_checked", 1)
 				if strings.Join(got, "|") != strings.Join(w, "|") {
-					viol("reason-wrong", fmt.Sprintf("rebuild reason %q names %v but the environment parts that differ are %v", reason, got, w), e.Name)
+					sig := "reason-wrong"
+					if strings.Contains(p.Name, "dict-keyed-by-") || strings.Contains(p.Name, "set-of-functions") {
+						// entries whose key or element is a function or builtin are dropped from the
+						// decoded environment (their decoded form cannot be a key), so no part shows the edit
+						sig = "reason-wrong:entries-with-non-data-keys"
+					}
+					viol(sig, fmt.Sprintf("rebuild reason %q names %v but the environment parts that differ are %v", reason, got, w), e.Name)
 				}
 				if d := le.ev.df["//:t"]; d != nil {
 					if eqo, _ := starlark.EqualDepth(d.Old(), l1.env, 2000); !eqo {
